@@ -102,27 +102,27 @@ type SoloRender struct {
 
 // ChildOutput is the result of a child.
 type ChildOutput struct {
-	Phase        string       `json:"phase"`
-	WallS        float64      `json:"wallS"`
-	RaceBuild    bool         `json:"raceBuild"`
-	ForcedRuns   int          `json:"forcedRuns"`
-	ForcedInSync int          `json:"forcedInSync"`
-	RandomRuns   int          `json:"randomRuns"`
-	Renders      int64        `json:"renders"`
-	JSWrites     int64        `json:"jsWrites"`
-	Compiles     int64        `json:"compiles"`
-	StressRuns   int          `json:"stressRuns"`
-	Distinct     []string     `json:"distinct"`
-	Mismatches   []Mismatch   `json:"mismatches"`
-	Solo         []SoloRender `json:"solo"`
-	Races        []RaceReport `json:"races"`
-	ToolErrors   []string     `json:"toolErrors"`
+	Phase        string        `json:"phase"`
+	WallS        float64       `json:"wallS"`
+	RaceBuild    bool          `json:"raceBuild"`
+	ForcedRuns   int           `json:"forcedRuns"`
+	ForcedInSync int           `json:"forcedInSync"`
+	RandomRuns   int           `json:"randomRuns"`
+	Renders      int64         `json:"renders"`
+	JSWrites     int64         `json:"jsWrites"`
+	Compiles     int64         `json:"compiles"`
+	StressRuns   int           `json:"stressRuns"`
+	Distinct     []string      `json:"distinct"`
+	Mismatches   []Mismatch    `json:"mismatches"`
+	Solo         []SoloRender  `json:"solo"`
+	Races        []RaceReport  `json:"races"`
+	ToolErrors   []string      `json:"toolErrors"`
 	Samples      []interface{} `json:"samples"`
 }
 
 type child struct {
-	in      *ChildInput
-	out     *ChildOutput
+	in       *ChildInput
+	out      *ChildOutput
 	seen     int // race reports in the log so far
 	origins  map[int]*Mismatch
 	resolved map[int]resolved
